@@ -194,6 +194,8 @@ def run(ctx, chk):
         # try_from_ascii and the text is produced with to_char, so the clause needs to_char injective and try_from_ascii its inverse
         # on every symbol of every codec (C01's table rows) and Display = the per-symbol to_char string (C01 S-display)
         core.import_rows(chk, cfg, "C01", "props.C01", ("T-inj-char", "T-rt-char", "S-display"))
+        # the text comparison walks the symbols with iter(): SeqIter's transition rows (C11)
+        core.import_rows(chk, cfg, "C11", "props.C11", ("G02", "G05c/into_iter", "S-glue"))
     chk.floor("eq impls over all configurations", neq, 17 * len(chk.configs))
     chk.floor("hash impls over all configurations", nhash, 3 * len(chk.configs))
 
